@@ -189,6 +189,16 @@ def lookupAug : Nat → PCell → Nat → Bits → Option PCell
           | none => none
           | some ch => lookupAug fuel ch (m - 1) key''
 
+/-- can `DepthBalanceInfo.deserialize` read `split_depth:(#<= 30) balance:CurrencyCollection` from these bits / remaining refs?
+(`load_uint(5)`, `load_coins`, the extra-currency Maybe-ref; the referenced dictionary is assumed parseable) -/
+def readsDepthBalance (bits : Bits) (nrefs : Nat) : Bool :=
+  if bits.length < 9 then false else
+  let len := natOfBits ((bits.drop 5).take 4)
+  if bits.length < 9 + 8 * len then false else
+  match bits.drop (9 + 8 * len) with
+  | [] => false
+  | b :: _ => if b then decide (nrefs ≥ 1) else true
+
 /-- `ShardStateUnsplit.deserialize(st.begin_parse()).accounts[0][int(addr)].cell[0]` as a lookup
 (valid for states without `custom`; everything off the path is assumed parseable). -/
 def locateAccount (st : PCell) (addr : Bytes) : Option PCell :=
@@ -204,10 +214,13 @@ def locateAccount (st : PCell) (addr : Bytes) : Option PCell :=
   | some accs =>
     if accs.info.kind != kOrdinary then none else
     match accs.info.bits with
-    | true :: _ =>
+    | true :: rest =>
       match accs.refs[0]? with
       | none => none
-      | some root => lookupAug 300 root 256 (bytesToBits addr)
+      | some root =>
+        -- `ahme_root$1 root:^(HashmapAug 256 ShardAccount DepthBalanceInfo) extra:DepthBalanceInfo`: since fix f2933e1
+        -- `load_hashmap_aug_e` reads the top-level extra after the root, so it must be readable
+        if readsDepthBalance rest (accs.refs.length - 1) then lookupAug 300 root 256 (bytesToBits addr) else none
     | _ => none
 
 end TonVerif.Model
